@@ -14,7 +14,7 @@ import sympy as sp
 
 from ..facts import Broken, pp, loc, walk
 from ..effects import callee, EIGEN_VIEWS
-from .. import sym, core
+from .. import sym, core, rawview
 from ..sym import Interp, Vec, Unsupported
 from ..model import spline_model
 from ..blocks import BlockRun
@@ -186,24 +186,12 @@ def run(chk):
                bad[0]["where"] if bad else "", "%d obligations of C05-R2/R4; first failing: %s" % (len(rel), bad[0]["instance"] if bad else "-"), construct=cls + "/branch-agreement")
     chk.floor("C13-R3", 2)
     # ---- R4 parametricity ---------------------------------------------------------------------------------------------
-    # premise: the matrices whose storage order depends on DIM (column-major for DIM == 1, row-major otherwise) are only
-    # touched through Eigen's index-based interface.  Raw storage access makes the meaning of the code depend on the
-    # layout, so nothing established on the DIM >= 2 instantiations transfers to DIM == 1: that is not decidable here.
-    raw = []
-    for f in F.functions:
-        c = f.get("cls", "")
-        if not any(c.startswith("SplineTrajectory::" + s_) for s_ in ("PPolyND",) + SPLINES):
-            continue
-        for n in walk(f.get("body")):
-            if n.get("k") == "call" and n.get("callee", {}).get("name") == "data" and (n.get("obj") or {}).get("t", {}).get("c") == "eigen":
-                raw.append((f, n, "data() on an Eigen object"))
-            elif n.get("k") in ("ctor", "decl") and ((n.get("t") or n.get("ty") or {}).get("tmpl") == "Map" or "Eigen::Map<" in str((n.get("t") or n.get("ty") or {}).get("n", ""))):
-                raw.append((f, n, "Eigen::Map over raw storage"))
-    if raw:
-        f, n, why = raw[0]
-        raise Broken("C13-R4 premise does not hold: %s in %s at %s (%s); coordinate independence for the column-major DIM == 1 layout cannot be transferred from the analysed instantiations" % (
-            why, f["full"][:100], loc(f, n), pp(n)[:80]))
-    chk.note("R4 premise: no raw storage access (data(), Eigen::Map) in the spline / trajectory classes")
+    # premise: the matrices whose storage order depends on DIM (column-major for DIM == 1, row-major otherwise) are
+    # touched through Eigen's index-based interface, or through raw-storage views that resolve to the same rows of the
+    # same object in every instantiation (sa/rawview.py).  A view that denotes different rows for different DIM makes
+    # the result of one coordinate depend on how many coordinates there are: a violation.  Raw access that cannot be
+    # resolved is not decidable here (analysis-broken).
+    check_raw_views(chk, F)
     check_parametricity(chk, F)
     if chk.tier == "thorough":
         F2 = facts_for(chk, "wit_thorough.cpp")
@@ -235,6 +223,37 @@ def erased(n):
             continue
         out[k] = erased(v)
     return out
+
+
+def check_raw_views(chk, F):
+    per = {}      # (template, other template arguments) -> {class: {(function, arity): [(object, first row, row step, rows)]}}
+    nviews = 0
+    for f in F.functions:
+        c = f.get("cls", "")
+        short = next((s_ for s_ in ("PPolyND",) + SPLINES if c.startswith("SplineTrajectory::" + s_ + "<")), None)
+        if short is None or not any(rawview.is_map_ctor(n) or rawview.is_eigen_data_call(n) for n in walk(f.get("body"))):
+            continue
+        vs = rawview.resolve_views(F, f)
+        nviews += len(vs)
+        key = (short, tuple((F.record(c).get("targs") or [])[1:]))
+        per.setdefault(key, {}).setdefault(c, {})[(f["name"], len(f["params"]))] = (f, [(o, a, b, r) for (_n, o, a, b, r) in vs])
+    if not per:
+        chk.note("R4 premise: no raw storage access (data(), Eigen::Map) in the spline / trajectory classes")
+        return
+    for key, by_cls in per.items():
+        clss = sorted(by_cls, key=lambda c: dim_of(F, c))
+        if len(clss) < 2:
+            raise Broken("raw-storage views in %s are instantiated for one DIM only; their meaning for the other storage order is not decided" % clss[0])
+        ref = clss[-1]
+        for cls in clss[:-1]:
+            for sig, (f, vs) in sorted(by_cls[cls].items()):
+                if sig not in by_cls[ref]:
+                    continue
+                want = by_cls[ref][sig][1]
+                ok = vs == want
+                chk.ob("C13-R4", "%s::%s raw-storage views denote the same rows of the same objects as in %s" % (cls, sig[0], ref), ok, loc(f),
+                       "DIM=%s: %s ; DIM=%s: %s (object, first row, row step, rows)" % (dim_of(F, cls), vs, dim_of(F, ref), want), construct="%s/%s/raw-views" % (cls, sig[0]))
+    chk.note("R4 premise: %d raw-storage views resolved to row maps and compared across DIM" % nviews)
 
 
 def check_parametricity(chk, F):
